@@ -458,7 +458,16 @@ def m_is_empty(I, st, callee, argv, depth, t, dty):
 @model('core::slice::first')
 def m_first(I, st, callee, argv, depth, t, dty):
     c = bytes_of(st, argv[0])
-    yield st, App('first', c)
+    l = tlen(c)
+    if l == 0:
+        yield st, NONE
+        return
+    test = App('nonempty', c)
+    if l is not None:
+        yield st, Some(App('first', c))
+        return
+    for s2, name, payload in I.fork_result(st, test, 'Some', 'None'):
+        yield s2, (Some(App('first', c)) if name == 'Some' else NONE)
 
 
 def range_bounds(I, st, base, r):
